@@ -30,7 +30,7 @@ func init() { Register(propC05{}) }
 
 func (propC05) ID() string { return "C05" }
 
-var c05Kinds = []string{"gentok", "exprtok", "csvtok", "musttok", "exprparser", "mustparser", "calc", "tmpl"}
+var c05Kinds = []string{"gentok", "exprtok", "csvtok", "musttok", "cpptok", "exprparser", "mustparser", "calc", "tmpl"}
 
 func c05Pool(kind string) []string {
 	switch kind {
@@ -55,6 +55,49 @@ type instance struct {
 	mp   *mparsers.MustacheParser
 	calc *calculator.ExpressionCalculator
 	tmpl *mustache.MustacheTemplate
+	// configuration calls applied so far (CSV tokenizer): a fresh reference
+	// instance gets the same configuration, not the same inputs
+	configs []int
+}
+
+// freshLike builds a new instance with the configuration history of in.
+func (in *instance) freshLike() *instance {
+	f := newInstance(in.kind, in.opts)
+	for _, c := range in.configs {
+		f.configure(c)
+	}
+	return f
+}
+
+// configure applies one of a few CSV tokenizer reconfigurations.
+func (in *instance) configure(which int) {
+	t, ok := in.tok.(*csv.CsvTokenizer)
+	if !ok {
+		return
+	}
+	if which < 0 {
+		which = -which
+	}
+	switch which % 6 {
+	case 0:
+		t.SetQuoteSymbols([]rune{'"'})
+		t.SetFieldSeparators([]rune{';'})
+	case 1:
+		t.SetQuoteSymbols([]rune{'"'})
+		t.SetFieldSeparators([]rune{',', '\t'})
+	case 2:
+		t.SetFieldSeparators([]rune{','})
+		t.SetQuoteSymbols([]rune{'\''})
+	case 3:
+		t.SetFieldSeparators([]rune{','})
+		t.SetQuoteSymbols([]rune{'"', '\''})
+	case 4:
+		t.SetEndOfLine("\n")
+	case 5:
+		t.SetFieldSeparators([]rune{','})
+		t.SetQuoteSymbols([]rune{'"'})
+	}
+	in.configs = append(in.configs, which)
 }
 
 func newInstance(kind, opts string) *instance {
@@ -68,6 +111,12 @@ func newInstance(kind, opts string) *instance {
 		in.tok = csv.NewCsvTokenizer()
 	case "musttok":
 		in.tok = mtok.NewMustacheTokenizer()
+	case "cpptok":
+		// a generic tokenizer with C++ style comments on '/'
+		g := generic.NewGenericTokenizer()
+		g.SetCommentState(generic.NewCppCommentState())
+		g.SetCharacterState('/', '/', g.CommentState())
+		in.tok = g
 	case "exprparser":
 		in.ep = cparsers.NewExpressionParser()
 	case "mustparser":
@@ -168,7 +217,22 @@ func (in *instance) step(o Op, sets []VarSet, dry *stepStats) (res string, st st
 		}
 		vs = sets[i%len(sets)]
 	}
+	if o.Op == "config" {
+		in.configure(o.I)
+		return "configured", st
+	}
 	switch {
+	case in.tok != nil && (o.Op == "strings" || o.Op == "streamstrings"):
+		sc := NewSimScanner(o.S, -1, 0)
+		var ss []string
+		if o.Op == "strings" {
+			ss = in.tok.TokenizeBufferToStrings(o.S)
+		} else {
+			ss = in.tok.TokenizeStreamToStrings(sc)
+		}
+		st.tokens = len(ss)
+		st.contentLen = len(sc.Content)
+		return fmt.Sprintf("strings:%q", ss), st
 	case in.tok != nil:
 		eofAt, failAt := -1, 0
 		abandon := -1
@@ -246,6 +310,14 @@ func (in *instance) step(o Op, sets []VarSet, dry *stepStats) (res string, st st
 		st.tokens = len(toks)
 		st.contentLen = len(sc.Content)
 		return describeTokens(toks), st
+	case in.ep != nil && o.Op == "tokens":
+		err := in.ep.ParseTokens(exprOriginalTokens(o.S))
+		return fmt.Sprintf("expr=%q err=%s|%s vars=%q result=%s", in.ep.Expression(), ErrCode(err), ErrMessage(err), in.ep.VariableNames(), describeExprTokens(in.ep.ResultTokens())), st
+	case in.mp != nil && o.Op == "tokens":
+		err := in.mp.ParseTokens(mustOriginalTokens(o.S))
+		var sb strings.Builder
+		snapshotTmplTokens(&sb, in.mp.ResultTokens())
+		return fmt.Sprintf("tmpl=%q err=%s|%s vars=%q result=%s", in.mp.Template(), ErrCode(err), ErrMessage(err), in.mp.VariableNames(), sb.String()), st
 	case in.ep != nil:
 		err := in.ep.ParseString(o.S)
 		return fmt.Sprintf("err=%s|%s vars=%q result=%s", ErrCode(err), ErrMessage(err), in.ep.VariableNames(), describeExprTokens(in.ep.ResultTokens())), st
@@ -291,7 +363,12 @@ func (in *instance) step(o Op, sets []VarSet, dry *stepStats) (res string, st st
 				st.fired = f.Kind
 			}
 		}()
-		err := in.calc.SetExpression(text)
+		var err error
+		if o.Op == "tokens" {
+			in.calc.SetOriginalTokens(exprOriginalTokens(text)) // reports no error; a failed parse leaves an empty program
+		} else {
+			err = in.calc.SetExpression(text)
+		}
 		if err != nil {
 			return fmt.Sprintf("set-err=%s|%s", ErrCode(err), ErrMessage(err)), st
 		}
@@ -310,7 +387,12 @@ func (in *instance) step(o Op, sets []VarSet, dry *stepStats) (res string, st st
 		}
 		return fmt.Sprintf("prog=%s eval=%s", prog, r), st
 	case in.tmpl != nil:
-		err := in.tmpl.SetTemplate(o.S)
+		var err error
+		if o.Op == "tokens" {
+			err = in.tmpl.SetOriginalTokens(mustOriginalTokens(o.S))
+		} else {
+			err = in.tmpl.SetTemplate(o.S)
+		}
 		if err != nil {
 			return fmt.Sprintf("set-err=%s|%s", ErrCode(err), ErrMessage(err)), st
 		}
@@ -371,8 +453,13 @@ func c05GenTask(r *Rand, kind string, faults bool, first, second int) TaskPlan {
 	for i := 0; i < n; i++ {
 		o := Op{Op: "buffer"}
 		if isTokKind(kind) {
-			o.Op = r.Pick([]string{"buffer", "stream", "manual", "manual"})
+			o.Op = r.Pick([]string{"buffer", "stream", "manual", "manual", "buffer", "stream", "manual", "manual", "strings", "streamstrings"})
 			o.I = r.Intn(4)
+			if kind == "csvtok" && r.Bool(0.12) {
+				tp.Ops = append(tp.Ops, Op{Op: "config", I: r.Intn(6)})
+			}
+		} else if r.Bool(0.2) {
+			o.Op = "tokens"
 		}
 		switch {
 		case i == 0 && first >= 0:
@@ -383,7 +470,7 @@ func c05GenTask(r *Rand, kind string, faults bool, first, second int) TaskPlan {
 			o.S = c05Input(r, kind)
 		}
 		o.Set = r.Intn(2)
-		if faults && r.Bool(0.3) {
+		if faults && r.Bool(0.3) && o.Op != "strings" && o.Op != "streamstrings" {
 			o.F = c05Fault(r, kind, o.Op)
 			if o.F != nil && strings.HasPrefix(o.F.Kind, "fn_") {
 				name := "Faulty"
@@ -443,6 +530,7 @@ func (propC05) Exec(p *Plan, x *Ctx) *Outcome {
 		got, fresh string
 		st         stepStats
 		dry        stepStats
+		configured bool
 	}
 	results := make([][]stepRes, len(p.Tasks))
 	for t := range p.Tasks {
@@ -461,12 +549,14 @@ func (propC05) Exec(p *Plan, x *Ctx) *Outcome {
 					run.ResetOpSteps()
 					od := o
 					od.F = nil
-					_, r.dry = newInstance(tp.Kind, tp.Text).step(od, tp.Sets, nil)
+					_, r.dry = in.freshLike().step(od, tp.Sets, nil)
 				}
 				run.ResetOpSteps()
+				fresh := in.freshLike()
 				r.got, r.st = in.step(o, tp.Sets, &r.dry)
+				r.configured = len(in.configs) > 0
 				run.ResetOpSteps()
-				r.fresh, _ = newInstance(tp.Kind, tp.Text).step(o, tp.Sets, &r.dry)
+				r.fresh, _ = fresh.step(o, tp.Sets, &r.dry)
 			}
 		})
 	}
@@ -515,7 +605,7 @@ func (propC05) Exec(p *Plan, x *Ctx) *Outcome {
 					"task %d (%s, options %q) step %d after history %s:\n reused instance: %s\n fresh instance:  %s", t, tp.Kind, tp.Text, i, strings.Join(hist, ", "), clip(r.got), clip(r.fresh))
 				break
 			}
-			if (o.F == nil || !faultsOn) && c05Pristine != nil {
+			if (o.F == nil || !faultsOn) && c05Pristine != nil && !r.configured {
 				if want, ok := c05Pristine[c05PristineKey(tp.Kind, tp.Text, o, o.Set%2)]; ok {
 					out.Probes["pristine_compared"]++
 					if want != r.got {
@@ -603,4 +693,32 @@ func C05Warmup() {
 		}
 	})
 	c05Pristine = m
+}
+
+// exprOriginalTokens tokenizes an expression the way ExpressionParser does
+// before it parses, with a tokenizer of its own.
+func exprOriginalTokens(text string) []*tokenizers.Token {
+	text = strings.Trim(text, " \t\r\n")
+	if text == "" {
+		return []*tokenizers.Token{}
+	}
+	t := ctok.NewExpressionTokenizer()
+	t.SetSkipWhitespaces(true)
+	t.SetSkipComments(true)
+	t.SetSkipEof(true)
+	t.SetDecodeStrings(true)
+	return t.TokenizeBuffer(text)
+}
+
+func mustOriginalTokens(text string) []*tokenizers.Token {
+	text = strings.Trim(text, " \t\r\n")
+	if text == "" {
+		return []*tokenizers.Token{}
+	}
+	t := mtok.NewMustacheTokenizer()
+	t.SetSkipWhitespaces(true)
+	t.SetSkipComments(true)
+	t.SetSkipEof(true)
+	t.SetDecodeStrings(true)
+	return t.TokenizeBuffer(text)
 }
